@@ -408,6 +408,17 @@ where
 			// the instance reports the same size/name as its configuration
 			let ok = inst.size() == size && inst.name() == name && inst.config().size() == size;
 			out.push(ok as i128);
+			// IndicatorConfigDyn::over == IndicatorConfig::over on the same slice (one result per candle, bit for bit)
+			let mut all = vec![c0];
+			all.extend(cs.iter().copied());
+			let flat = |rs: &Vec<IndicatorResult>| {
+				let mut v = vec![rs.len() as i128];
+				rs.iter().for_each(|r| push_result(r, &mut v));
+				v
+			};
+			let d = catch(|| dcfg.over(&all).map(|rs| flat(&rs)).map_err(|_| ()));
+			let st = catch(|| cfg.clone().over(&all).map(|rs| flat(&rs)).map_err(|_| ()));
+			out.push((d == st) as i128);
 		}
 		other => panic!("unknown indicator variant {other}"),
 	}
